@@ -1,4 +1,5 @@
 import Netconan.Proofs.Lines
+import Netconan.Proofs.WordOrder
 /-!
 # C13 – Same salt, options and input give byte-identical output, always  (partial)
 
@@ -33,6 +34,14 @@ theorem run_deterministic (p : Pipeline) (lk : Lookup) (lines : List (List Char)
     ∀ p' lk' lines', p = p' → lk = lk' → lines = lines' →
       anonymizeLines p lk lines = anonymizeLines p' lk' lines' := by
   intro p' lk' lines' h1 h2 h3; subst h1 h2 h3; rfl
+
+/-- **The sensitive-word alternation does not depend on the order or repetition of the word list** (hence not
+on the iteration order of the `set` the Python code builds it from, i.e. not on the interpreter's hash seed):
+the sorted list of alternatives is a function of the *set* of lower-cased words. -/
+theorem word_alternation_order_independent (e : WEnv) (ws1 ws2 : List (List Char)) (salt : List Char) (res : List (List Char))
+    (hset : ∀ w, w ∈ ws1.map (lowerStr e) ↔ w ∈ ws2.map (lowerStr e)) :
+    (Words.mk e ws1 salt res).words = (Words.mk e ws2 salt res).words :=
+  Words.words_determined_by_set e ws1 ws2 salt res hset
 
 /-- the alternation of sensitive words is ordered by (length descending, then code points): a fixed
 order, kernel-checked on the list whose hash-seed dependence was the defect (a test) -/
